@@ -181,6 +181,44 @@ def run_harness(binary, lines, work, timeout=600, symbolize=True):
     return res, (None if done else last_b), r
 
 
+def drive(binary, lines, work, prefix, describe):
+    """run all the lines, resuming after each dying case.  Every death is confirmed on the single witness line (a
+    watchdog firing must fire twice, with a longer delay) and reported once per distinct sanitizer signature.
+    -> (results {id: fields}, violations [(key, what, replay)], counters)"""
+    results, viol, counters, known = {}, [], {}, {}
+    by_id = {ln.split(SEP, 1)[0]: ln for ln in lines}
+    todo = lines
+    while todo:
+        res, witness, r = run_harness(binary, todo, work, timeout=180 + 0.5 * len(todo), symbolize=False)
+        results.update(res)
+        if witness is None:
+            break
+        k = next((j for j, ln in enumerate(todo) if ln.split(SEP, 1)[0] == witness), len(todo) - 1)
+        todo = todo[k + 1:]
+        counters["crash"] = counters.get("crash", 0) + 1
+        sig = signature(r.err) if not r.timed_out else ("hang", witness)
+        if sig in known:
+            counters["crash-same-signature-as:" + known[sig]] = counters.get("crash-same-signature-as:" + known[sig], 0) + 1
+            continue
+        ln = by_id.get(witness)
+        res1, w1, r1 = run_harness(binary, [ln], work, timeout=120)
+        cls = crash_class(r1)
+        if cls == "hang":
+            res2, w2, r2 = run_harness(binary, [ln], work, timeout=300)
+            cls = "hang" if r2.timed_out else crash_class(r2)
+            r1 = r2
+        if cls is None:
+            if res1.get(witness):
+                results[witness] = res1[witness]
+            if not r.timed_out:
+                viol.append(("__inconclusive__", "death in a batch on %s not reproduced alone: %s" % (describe(witness), crash_class(r)), None))
+            continue
+        key = "%s:%s:%s" % (prefix, crash_kind(cls, r1.err), frame_of(r1.err, "Evaluator"))
+        known[sig] = key
+        viol.append((key, "%s on %s\n%s" % (cls, describe(witness), r1.err[-3000:]), {"line": ln, "stderr": r1.err[-4000:], "what": describe(witness)}))
+    return results, viol, counters
+
+
 def crash_class(r):
     c = vfcore.Ctx.classify_crash(None, vfcore.Result(r.rc, "", r.err, r.timed_out, r.wall))
     return c
@@ -269,21 +307,10 @@ def value_shard(args):
 
     def stat(k, n=1):
         out["stats"][k] = out["stats"].get(k, 0) + n
-    # run, resuming after a crash
-    todo = lines
-    results = {}
-    while todo:
-        res, witness, r = run_harness(binary, todo, work)
-        results.update(res)
-        if witness is None:
-            break
-        c = cases.get(witness)
-        cls = crash_class(r) or "rc=%s" % r.rc
-        out["viol"].append(("accept:%s:%s" % (crash_kind(cls, r.err), frame_of(r.err)),
-                            "%s on the well-formed formula %r\n%s" % (cls, c["formula"] if c else "?", r.err[-2500:]),
-                            {"formula": c["formula"] if c else None, "line": c["line"] if c else None}))
-        k = next((j for j, ln in enumerate(todo) if ln.split(SEP, 1)[0] == witness), len(todo) - 1)
-        todo = todo[k + 1:]
+    results, crashes, counters = drive(binary, lines, work, "accept", lambda w: "the well-formed formula %r" % (cases.get(w, {}).get("formula"),))
+    out["viol"] += crashes
+    for k, v in counters.items():
+        stat(k, v)
     for cid, c in cases.items():
         st = c["stratum"]
         f = results.get(cid)
@@ -500,10 +527,19 @@ def mutate(rng, toks):
 
 PLUS_MINUS_CAP = 4
 HAND = ["a+-b", "--a", "a--b", "a-+b", "+a", "a+", "a**", "**a", "a*/b", "(a", "a)", "()", "", " ", "a b", "2 3", "sin", "sin()", "sin(,)", "max(a)",
-        "max(a,b,c)", "power<>(a)", "power<2>", "power<2>(a", "power<a>(b)", "Cste::", "Cste::Z", "::R", "a?b:c", "a<b?1", "a<b?1:", "a<b?:2", "?1:2",
+        "max(a,b,c)", "power<>(a)", "power<2>", "power<2>(a", "power<a>(b)", "power<2,>(a)", "power<2,3>(a)", "power<,2>(a)", "Cste::", "Cste::Z", "::R", "a?b:c", "a<b?1", "a<b?1:", "a<b?:2", "?1:2",
         "a<b<c?1:2", "a<b?1:c<d?2:3", "1e", "1e+", "1.2.3", "2x", "x2", "a+-b*c", "-a+-b", "a*-b", "a/-b", "a**-b", "a+-(b)", "(a)+-b", "sin(a+-b)",
         "a+-b+-c", "a+-2", "2+-a", "-+a", "a-", "-", "a<-b?1:2", "a<b&&?1:2", "!a<b?1:2", "a<b||c<d&&e<f?1:2", "2**3**2", "a&&b", "a&b?1:2", "a|b",
         "diff(a*a,a)", "a=b", "a==b", "a<=b", "a,b", "f(a)", "a(b)", "3(a)", "a[0]", "$a", "a.b", "1/0", "sqrt(-1)", "ln(0)", "exp(1000)"]
+
+
+def reason_slug(mine):
+    """class of a rejection by the reference parser: its message without positions (e.g. expected-'>'-read-',')"""
+    m = mine.replace("reject: ", "")
+    m = re.sub(r"at \d+", "", m)
+    m = re.sub(r"near .*", "", m)
+    m = re.sub(r"(unknown (?:function|constant)|qualified name|malformed number) .*", r"\1", m)
+    return re.sub(r"\s+", "-", m.strip())[:48]
 
 
 def reject_shard(args):
@@ -546,34 +582,15 @@ def reject_shard(args):
         out["stats"][k] = out["stats"].get(k, 0) + n
     if skipped_pm:
         stat("not-run:plus-minus-pattern-beyond-cap", skipped_pm)
-    todo, results = lines, {}
-    known = {}      # signature of an unsymbolised report -> key of the violation already raised for it
-    while todo:
-        res, witness, r = run_harness(binary, todo, work, timeout=900, symbolize=False)
-        results.update(res)
-        if witness is None:
-            break
-        c = cases.get(witness, {})
-        k = next((j for j, ln in enumerate(todo) if ln.split(SEP, 1)[0] == witness), len(todo) - 1)
-        todo = todo[k + 1:]
-        stat("crash")
-        sig = signature(r.err) if not r.timed_out else ("hang", ())
-        if sig in known:
-            stat("crash-same-signature-as:" + known[sig])
-            continue
-        # the witness alone, symbolised, for a clean report (and twice for a hang)
-        res1, w1, r1 = run_harness(binary, [c["line"]], work, timeout=60)
-        cls = crash_class(r1)
-        if cls == "hang":
-            res2, w2, r2 = run_harness(binary, [c["line"]], work, timeout=120)
-            cls = "hang" if r2.timed_out else crash_class(r2)
-        if cls is None:
-            out["viol"].append(("__inconclusive__", "crash in a batch on %r not reproduced alone: %s" % (c.get("s"), crash_class(r)), None))
-            continue
-        key = "reject:%s:%s" % (crash_kind(cls, r1.err), frame_of(r1.err, "Evaluator"))
-        known[sig] = key
-        out["viol"].append((key, "%s while analysing the formula %r (mutant of %r)\n%s" % (cls, c.get("s"), c.get("origin"), r1.err[-3000:]),
-                            {"formula": c.get("s"), "origin": c.get("origin"), "line": c.get("line"), "stderr": r1.err[-4000:]}))
+    results, crashes, counters = drive(binary, lines, work, "reject",
+                                       lambda w: "the formula %r (mutant of %r)" % (cases.get(w, {}).get("s"), cases.get(w, {}).get("origin")))
+    for key, what, rp in crashes:
+        if rp is not None:
+            w = rp["line"].split(SEP, 1)[0]
+            rp.update(formula=cases.get(w, {}).get("s"), origin=cases.get(w, {}).get("origin"))
+        out["viol"].append((key, what, rp))
+    for k, v in counters.items():
+        stat(k, v)
     for cid, c in cases.items():
         f = results.get(cid)
         if f is None:
@@ -599,7 +616,7 @@ def reject_shard(args):
         got = float.fromhex(f[1])
         rp = {"formula": s, "origin": c["origin"], "line": c["line"], "evaluator_value": hexf(got), "reference_parser": mine}
         if mine != "ok":
-            out["viol"].append(("reject:accepted-malformed", "the malformed formula %r (%s) is accepted and evaluates to %r" % (s, mine, got), rp))
+            out["viol"].append(("reject:accepted-malformed:" + reason_slug(mine), "the malformed formula %r (%s) is accepted and evaluates to %r" % (s, mine, got), rp))
             continue
         undecided = notes & {"chained-pow", "mixed-logical"}
         names = unhex(f[2][5:]).split(",") if len(f) > 2 and f[2].startswith("vars=") else []
